@@ -51,6 +51,16 @@ class PyRaise(Exception):
         super().__init__(exc.typ)
         self.exc = exc
 
+    def __reduce__(self):
+        # Exception's default pickling re-calls __init__ with args (= the type name): keep the ExcVal instead,
+        # flattened to text where its payload cannot cross a process boundary
+        try:
+            import pickle
+            pickle.dumps(self.exc)
+            return (PyRaise, (self.exc,))
+        except Exception:
+            return (PyRaise, (ExcVal(self.exc.typ, tuple(str(a) for a in getattr(self.exc, 'args', ()))),))
+
 
 class _Return(Exception):
     def __init__(self, value: Any) -> None:
@@ -300,6 +310,7 @@ class Path:
         self.fresh_counter = itertools.count()
         self.trace: list[str] = []
         self.feas_unknown = 0
+        self.cover_hints: list = []
 
     def fresh_name(self, base: str) -> str:
         return f'{base}!{next(self.fresh_counter)}'
@@ -380,6 +391,10 @@ class Path:
     def cover(self, name: str, lineno: int = 0) -> None:
         """Reachability marker: the path condition here must be satisfiable (vacuity guard)."""
         self.obligations.append(Obligation(name, list(self.pc), z3.BoolVal(False), lineno, kind='cover'))
+        if self.cover_hints:
+            # the same cover with a candidate witness conjoined: sat(pc and hints) => sat(pc); its unsat means nothing
+            self.obligations.append(Obligation(name, list(self.pc) + list(self.cover_hints), z3.BoolVal(False), lineno,
+                                               note='hinted', kind='cover'))
 
 
 # ----------------------------------------------------------------------------------------------------------------
